@@ -129,3 +129,17 @@ pub(crate) const fn same_value_bits(a: u64, b: u64) -> bool {
     }
     a == b
 }
+
+/// Ordering key of a non-NaN double: a < b (IEEE, -0 == +0) iff key(a) < key(b).
+pub(crate) const fn order_key(bits: u64) -> i64 {
+    let mag = (bits & 0x7FFF_FFFF_FFFF_FFFF) as i64;
+    if (bits >> 63) == 1 { -mag } else { mag }
+}
+/// IEEE `<` on bit patterns, integer-only.
+pub(crate) const fn lt_bits(a: u64, b: u64) -> bool {
+    !is_nan_bits(a) && !is_nan_bits(b) && order_key(a) < order_key(b)
+}
+/// IEEE `==` on bit patterns, integer-only (NaN != NaN, -0 == +0).
+pub(crate) const fn eq_bits(a: u64, b: u64) -> bool {
+    !is_nan_bits(a) && !is_nan_bits(b) && order_key(a) == order_key(b)
+}
